@@ -35,6 +35,7 @@ META = {
 }
 META["explanation"] += ' Also COPY for the wrappers.'
 META["explanation"] += ' Round 5: the model a bound method belongs to is compared with None, never truth-tested (DISPATCH owner-by-identity); the 1-d input rule is decided case by case; DEP-C18 E4 for the wrapper / validator modules; registries filled by __init_subclass__ are not decided. HAZARD: constructs that do not mean what they look like, met in the analysed code (defaults evaluated once, class-level containers changed through self, dict.fromkeys with a shared mutable value, late-binding lambdas, truth value of objects that define __len__) are reported by every check.'
+META["explanation"] += ' Round 6: len(flat) == 1 as size test; method names looked up in a table; DEP-C15 NOMUT (the shared feature-name list keeps its order).'
 MIN_INSTANCES = {"SHAPE": 3, "INPUT": 2, "WIRING": 4, "RIVER": 3, "DISPATCH": 3, "NPAPI": 1, "COPY": 3}
 FLAT = (".flatten", ".ravel")
 
